@@ -388,6 +388,44 @@ func c16Wide(c *fw.Ctx, k int, order int) {
 	c.Count("transitions", int64(k*4))
 }
 
+// ---- very long symbols: the symbol a^(k-1)b with and without its one-character prefix registered; inputs
+// that follow it for k-1 characters and then diverge or end (the state must give back all of them)
+
+func c16LongSymbol(c *fw.Ctx, k int, withPrefix bool) {
+	st := generic.NewGenericSymbolState()
+	long := strings.Repeat("a", k-1) + "b"
+	reg := map[string]int{long: 150}
+	st.Add(long, 150)
+	if withPrefix {
+		st.Add("a", 151)
+		reg["a"] = 151
+	}
+	for _, in := range []string{long + "a", strings.Repeat("a", k-1) + "c" + "ab", strings.Repeat("a", k-1), strings.Repeat("a", k/2) + "c", long} {
+		rin := []rune(in)
+		wantText, wantType := c16ExprRef(reg, rin)
+		var tok *tokenizers.Token
+		restLen := -1
+		pv := fw.Try(func() {
+			sc := rio.NewStringScanner(in)
+			tok = st.NextToken(sc, nil)
+			restLen = 0
+			for sc.Read() != -1 && restLen <= len(rin)+2 {
+				restLen++
+			}
+		})
+		c.Eval(1)
+		if pv != nil || tok == nil {
+			c.Violation("symbol-read-panic:long-symbol", "symbol of %d characters (prefix registered: %v): NextToken over %d characters panicked: %v", k, withPrefix, len(rin), fw.PanicStr(pv))
+			return
+		}
+		if tok.Value() != wantText || tok.Type() != wantType || restLen != len(rin)-len([]rune(wantText)) {
+			c.Violation("long-symbol", "symbol a^%db of %d characters (one-character prefix registered: %v), input of %d characters (%q...): token of %d characters type %d leaving %d characters; longest registered prefix has %d characters and type %d, leaving %d", k-1, k, withPrefix, len(rin), string(rin[:1]), len([]rune(tok.Value())), tok.Type(), restLen, len([]rune(wantText)), wantType, len(rin)-len([]rune(wantText)))
+			return
+		}
+	}
+	c.Nontrivial()
+}
+
 var c16Cache = map[string]*c16Cfg{}
 
 func c16Get(tier, which string) *c16Cfg {
@@ -445,6 +483,9 @@ func c16Get(tier, which string) *c16Cfg {
 				v.cases = append(v.cases, c16Case{m, p})
 			}
 		}
+	case which == "alias":
+		// sibling characters that are equal modulo 2^8 ('a', U+0161, U+0261; symbols cannot hold astral characters)
+		v = c16BuildL("alias", []rune{'a', 0x161, 0x261}, []rune{'a', 0x161, 0x261, 'c'}, 3, 2, 3, 2)
 	case tier == "quick":
 		v = c16Build("aя", []rune("aя"), []rune("aяc"), 2, 2, 3)
 	default:
@@ -459,7 +500,7 @@ func init() {
 		ID:    "C16",
 		Level: "model_checking",
 		Rule: "symbol sets = subsets of the 14 strings of length 1..3 over {a,b} (own token type each), every registration order for sets of <=3 symbols (two orders otherwise); on each real tree every sequence of reads over all inputs of bounded length over {a,b,c}, " +
-			"and for every further candidate: read all inputs, Add it, read all inputs again; each read compared with 'longest registered prefix, else one character' for text, type and consumed length; same over {a,я} for the >U+00FF child lookup; plus sets of <=3 symbols of length up to 5 (a, aa, aaa, aaaa, aaab, aab, ab, aaaaa) in every order with inputs up to length 4, where a later-registered shorter symbol must be honoured by deeper nodes; plus tables of up to 74 symbols with different first characters (one node with that many children) in three registration orders; plus the expression tokenizer's own symbol state: its default table, every sequence of <=3 (thorough 4) further registrations out of 6 (new symbols, a prefix and an extension of default symbols, a default symbol re-registered with another type), all inputs of length<=4 over {<,>,=,!} after every step, and a NEW expression symbol state that must still read by the default table; non-trivial = tree with >=2 symbols",
+			"and for every further candidate: read all inputs, Add it, read all inputs again; each read compared with 'longest registered prefix, else one character' for text, type and consumed length; same over {a,я} for the >U+00FF child lookup; plus sets of <=3 symbols of length up to 5 (a, aa, aaa, aaaa, aaab, aab, ab, aaaaa) in every order with inputs up to length 4, where a later-registered shorter symbol must be honoured by deeper nodes; plus one symbol of up to 513 characters with inputs that follow it almost to the end; plus symbols over three characters that are equal modulo 2^8; plus tables of up to 74 symbols with different first characters (one node with that many children) in three registration orders; plus the expression tokenizer's own symbol state: its default table, every sequence of <=3 (thorough 4) further registrations out of 6 (new symbols, a prefix and an extension of default symbols, a default symbol re-registered with another type), all inputs of length<=4 over {<,>,=,!} after every step, and a NEW expression symbol state that must still read by the default table; non-trivial = tree with >=2 symbols",
 		Assume: []string{"trees are rebuilt from scratch for every read sequence (real objects cannot be cloned)"},
 		Spaces: func(tier string) []fw.Space {
 			sp := []fw.Space{}
@@ -478,6 +519,11 @@ func init() {
 			add("aя", 2, "sets-nonlatin-read-pairs")
 			add("deep", 1, "deep-symbols-monotonicity")
 			add("nonlatin3", 1, "three-nonlatin-alphabet")
+			add("alias", 1, "sibling-characters-equal-modulo-256")
+			longK := append(append([]int{}, pumpCountsSmall...), 255, 258, 259, 300, 513)
+			sp = append(sp, fw.Space{Name: "long-symbols", N: int64(len(longK) * 2),
+				Run:  func(c *fw.Ctx, i int64) { c16LongSymbol(c, longK[int(i)/2], i%2 == 1) },
+				Repr: func(i int64) string { return fmt.Sprintf("one symbol of %d characters, one-character prefix registered: %v", longK[int(i)/2], i%2 == 1) }})
 			sp = append(sp, fw.Space{Name: "wide-tables", N: int64(len(widthCounts) * 3),
 				Run:  func(c *fw.Ctx, i int64) { c16Wide(c, widthCounts[int(i)/3], int(i)%3) },
 				Repr: func(i int64) string { return fmt.Sprintf("symbols with %d different first characters, registration order %d", widthCounts[int(i)/3], i%3) }})
